@@ -325,13 +325,20 @@ func c08Scenarios(disk bool) []*schedScenario {
 		w.Lookup(c.probes[0], c.chain(c.probes[0]))
 	}
 	// probes: 0 common 1 oldOnly 2 newOnly 4 neither
-	return []*schedScenario{
+	scs := []*schedScenario{
 		{Name: name("a5-update-run-vs-publish-and-second-run"), Setup: setupOld, Ops: []schedOp{refresh, publishTick}, Post: bgPost},
 		{Name: name("a4-background-first-fetch-vs-publish-and-tick"), Setup: bgSetup, Ops: []schedOp{reader(1, 2), publishTick}, Post: bgPost},
 		{Name: name("a1-refresh-vs-2readers"), Setup: setup, Ops: []schedOp{refresh, reader(1, 1, 2, 0), reader(2, 2, 1, 4)}},
 		{Name: name("a2-configrefresh-vs-reader"), Setup: setup, Ops: []schedOp{cfgRefresh, reader(1, 1, 2, 1, 2)}},
 		{Name: name("a3-two-refreshes-vs-reader"), Setup: setup, Ops: []schedOp{refresh, cfgRefresh, reader(1, 2, 1, 0)}, ThoroughOnly: true},
 	}
+	// on disk the file and database operations are scheduling points as well
+	if disk {
+		for _, sc := range scs {
+			sc.Cfg.EffectsArePoints = true
+		}
+	}
+	return scs
 }
 
 // c08JudgeAtomic checks one execution's observations.
